@@ -267,7 +267,7 @@ pub fn read_cstr(pid: i32, addr: u64) -> String {
             break;
         }
     }
-    String::from_utf8_lossy(&out).to_string()
+    crate::penc::penc_bytes(&out)
 }
 
 pub fn normalize(p: &str) -> String {
@@ -491,7 +491,7 @@ pub fn install_alarm_handler() {
 
 /// fork + exec a worker as a tracee; returns its pid after the exec stop has been consumed
 pub fn spawn_traced(bin: &Path, args: &[String], cwd: &Path, env: &[(String, String)]) -> Result<i32, String> {
-    let cbin = CString::new(bin.display().to_string()).map_err(|e| e.to_string())?;
+    let cbin = CString::new(std::os::unix::ffi::OsStrExt::as_bytes(bin.as_os_str())).map_err(|e| e.to_string())?;
     let mut cargs: Vec<CString> = vec![cbin.clone()];
     for a in args {
         cargs.push(CString::new(a.as_str()).map_err(|e| e.to_string())?);
@@ -501,7 +501,7 @@ pub fn spawn_traced(bin: &Path, args: &[String], cwd: &Path, env: &[(String, Str
     let cenv: Vec<CString> = env.iter().map(|(k, v)| CString::new(format!("{}={}", k, v)).unwrap()).collect();
     let mut envp: Vec<*const libc::c_char> = cenv.iter().map(|c| c.as_ptr()).collect();
     envp.push(std::ptr::null());
-    let ccwd = CString::new(cwd.display().to_string()).map_err(|e| e.to_string())?;
+    let ccwd = CString::new(std::os::unix::ffi::OsStrExt::as_bytes(cwd.as_os_str())).map_err(|e| e.to_string())?;
     let devnull = CString::new("/dev/null").unwrap();
     let pid = unsafe { libc::fork() };
     if pid < 0 {
@@ -553,7 +553,7 @@ pub fn tgid_of(tid: i32) -> Option<i32> {
 }
 
 pub fn cwd_string(p: &Path) -> String {
-    normalize(&p.display().to_string())
+    normalize(&crate::penc::penc(p))
 }
 
 pub fn pathbuf(s: &str) -> PathBuf {
